@@ -241,17 +241,22 @@ func (cf *c01Config) model(pts []c01Point) []c01Event {
 }
 
 // batchModel: one decision per tumbling 2s window [2k, 2k+2): level = highest (or lowest with all()) of the window's points.
-func (cf *c01Config) batchModel(pts []c01Point) []alert.Level {
-	var out []alert.Level
+// Without all() a non-OK event is triggered by the first point of the window that reaches the window's level: the
+// event carries that point's time, and its duration counts from the triggering point of the episode's first event.
+// TimeS = -1 where the statement does not say which point's time an event carries (recoveries, all()).
+func (cf *c01Config) batchModel(pts []c01Point) []c01Event {
+	var out []c01Event
 	cur := alert.OK
+	leftOK := -1
 	i := 0
 	for i < len(pts) {
 		w := pts[i].T / 2
 		hi, lo := alert.OK, alert.Critical
+		hiT := -1
 		for i < len(pts) && pts[i].T/2 == w {
 			l := cf.level(cur, pts[i].V)
-			if l > hi {
-				hi = l
+			if l > hi || hiT < 0 {
+				hi, hiT = l, pts[i].T
 			}
 			if l < lo {
 				lo = l
@@ -263,6 +268,7 @@ func (cf *c01Config) batchModel(pts []c01Point) []alert.Level {
 			nl = lo
 		}
 		changed := nl != cur
+		prev := cur
 		cur = nl
 		if cf.SCO && !changed { // no interval in the batch form here
 			continue
@@ -270,15 +276,169 @@ func (cf *c01Config) batchModel(pts []c01Point) []alert.Level {
 		if nl == alert.OK && !changed {
 			continue
 		}
+		ev := c01Event{Level: nl, TimeS: -1, DurS: -1}
+		if !cf.All && nl != alert.OK {
+			ev.TimeS = hiT
+			if prev == alert.OK || leftOK < 0 {
+				leftOK = hiT
+			}
+			ev.DurS = hiT - leftOK
+		}
+		if nl == alert.OK {
+			leftOK = -1
+		}
 		if cf.NoRecoveries && nl == alert.OK {
 			continue
 		}
-		out = append(out, nl)
+		out = append(out, ev)
 	}
 	return out
 }
 
+// ---- flapping: hysteresis between the high and the low threshold ----
+//
+// pipeline/alert.go: "if the percentage of state changes goes above the high threshold, the alert enters a flapping
+// state. The alert remains in the flapping state until the percentage of state changes goes below the low threshold",
+// computed "similar to Nagios", i.e. with weights between 0.8 (oldest) and 1.2 (newest) per possible change. The
+// reference does not reproduce the weights: from the number c of changes among the last `history` levels it only
+// concludes what holds for every weighting in that range, allowing the count to be off by one change.
+type c01FlapScenario struct {
+	Kind   string `json:"kind"`
+	Levels []int  `json:"levels"` // per point: 0 OK, 3 CRITICAL
+	Script string `json:"script"`
+	Config string `json:"config"`
+}
+
+func runC01Flap(c *Ctx) Verdict {
+	g := c.G
+	sc := &c01FlapScenario{Kind: "flapping"}
+	const hist = 21
+	low, high := 0.1, 0.6
+	lvl := 0
+	phases := g.Range(2, 3)
+	for ph := 0; ph < phases; ph++ {
+		if ph%2 == 0 { // unrest: (nearly) every point changes the level
+			for i, n := 0, g.Range(16, 26); i < n; i++ {
+				if !g.Chance(1, 12) {
+					lvl = 3 - lvl
+				}
+				sc.Levels = append(sc.Levels, lvl)
+			}
+		} else { // calm: (nearly) every point keeps it
+			if g.Bool() {
+				lvl = 3
+			}
+			for i, n := 0, g.Range(8, 22); i < n; i++ {
+				if g.Chance(1, 15) {
+					lvl = 3 - lvl
+				}
+				sc.Levels = append(sc.Levels, lvl)
+			}
+		}
+	}
+	sc.Script = fmt.Sprintf("stream\n    |from().measurement('m').groupBy('host')\n    |alert()\n        .id('{{ index .Tags \"host\" }}')\n        .crit(lambda: \"v\" > 80)\n        .flapping(%v, %v)\n        .topic('t1')\n", low, high)
+	c.Scenario = sc
+	cfg := c.WorldConfig()
+	delete(cfg.Knobs, "MinimumEventBufferSize")
+	delete(cfg.Knobs, "DefaultEventBufferSize")
+	cfg.MaxSteps = 3_000_000
+	sc.Config = fmt.Sprintf("%v p=%.2f pool=%d", cfg.Strategy, cfg.SwitchProb, cfg.PoolMode)
+	var verdict Verdict
+	var d *harness.Daemon
+	rec := &harness.RecHandler{Name: "h1"}
+	res := c.World(cfg, func() {
+		var err error
+		d, err = harness.NewDaemon(harness.DaemonOpts{})
+		if err != nil {
+			verdict = Fail("harness/setup", "daemon: %v", err)
+			return
+		}
+		d.Alert.RegisterAnonHandler("t1", rec)
+		task, err := d.Define("A", sc.Script, kapacitor.StreamTask, []kapacitor.DBRP{{Database: "db", RetentionPolicy: "rp"}})
+		if err != nil {
+			verdict = Fail("harness/setup", "define: %v\n%s", err, sc.Script)
+			return
+		}
+		if _, err := d.TM.StartTask(task); err != nil {
+			verdict = Fail("harness/setup", "start: %v", err)
+			return
+		}
+		for i, l := range sc.Levels {
+			line := fmt.Sprintf("m,host=h0 v=%di %d\n", 10+l*30, int64(i+1)*int64(time.Second))
+			if code := d.WriteLine("db", "rp", line); code != 204 {
+				verdict = Fail("harness/setup", "write rejected %d", code)
+			}
+		}
+		simrt.Fair()
+		simrt.WaitIdle()
+	})
+	if v, bad := WorldVerdict(res, false); bad {
+		return v
+	}
+	if verdict.Class != "" {
+		return verdict
+	}
+	for _, e := range d.Sinks.Errs {
+		return Fail("node-error", "the alert task reported an error on well-typed input: %s", e)
+	}
+	emitted := map[int]alert.Level{}
+	for _, e := range rec.Events {
+		emitted[int(e.TimeNs/1e9)] = e.Level
+	}
+	window := make([]int, hist) // the last `history` levels, oldest first; the history starts out as all OK
+	state := "not-flapping"
+	prev := 0
+	probes := 0
+	for i, l := range sc.Levels {
+		window = append(window[1:], l)
+		ch := 0
+		for k := 1; k < hist; k++ {
+			if window[k] != window[k-1] {
+				ch++
+			}
+		}
+		lo := 0.8 * float64(ch-1) / float64(hist-1) // least and greatest percentage any weighting in [0.8, 1.2] can give
+		hi := 1.2 * float64(ch+1) / float64(hist-1)
+		switch {
+		case lo > high:
+			state = "flapping"
+		case hi < low:
+			state = "not-flapping"
+		case state == "flapping" && lo >= low: // cannot have gone below the low threshold: still flapping
+		case state == "not-flapping" && hi <= high: // cannot have gone above the high threshold: still quiet
+		default:
+			state = "unknown"
+		}
+		t := i + 1
+		_, got := emitted[t]
+		due := l != 0 || prev != 0 // a non-OK point, or the recovery after one
+		switch {
+		case state == "flapping" && got:
+			probes++
+			v := Fail("events/flapping", "point #%d (t=%ds, level %d): %d of the last %d possible state changes happened, so the id has been flapping since it went above the high threshold %v and cannot have come back below the low threshold %v (any Nagios-style weighting gives at least %.3f); yet handlers received an event for this point. levels: %v", i, t, l, ch, hist-1, high, low, lo, sc.Levels)
+			v.Shape = map[string]interface{}{"kind": "flapping", "clause": "event-while-flapping"}
+			return v
+		case state == "not-flapping" && due && !got:
+			v := Fail("events/flapping", "point #%d (t=%ds, level %d, previous %d): %d of the last %d possible state changes happened, which is below the low threshold %v for any Nagios-style weighting (at most %.3f), so the id is not flapping; yet the event due for this point never reached the handlers. levels: %v", i, t, l, prev, ch, hist-1, low, hi, sc.Levels)
+			v.Shape = map[string]interface{}{"kind": "flapping", "clause": "event-missing-while-quiet"}
+			return v
+		case state == "not-flapping" && !due && got:
+			v := Fail("events/flapping", "point #%d (t=%ds) is OK after OK, yet handlers received an event for it", i, t)
+			v.Shape = map[string]interface{}{"kind": "flapping", "clause": "event-for-ok"}
+			return v
+		}
+		if state == "flapping" {
+			c.Counters["probe.flapping_certain"]++
+		}
+		prev = l
+	}
+	return Pass()
+}
+
 func runC01(c *Ctx) Verdict {
+	if c.G.Chance(1, 7) {
+		return runC01Flap(c)
+	}
 	sc := c01Gen(c)
 	c.Scenario = sc
 	cfg := c.WorldConfig()
@@ -391,15 +551,26 @@ func runC01(c *Ctx) Verdict {
 			}
 		}
 		if sc.Cfg.Batch {
-			want := sc.Cfg.batchModel(pts)
-			var gl []alert.Level
+			wantEv := sc.Cfg.batchModel(pts)
+			var gl, want []alert.Level
 			for _, e := range got {
 				gl = append(gl, e.Level)
+			}
+			for _, e := range wantEv {
+				want = append(want, e.Level)
 			}
 			if fmt.Sprint(gl) != fmt.Sprint(want) {
 				v := Fail("events/batch", "alert id %s (batch form, all=%v): handlers saw levels %v, the documented rule gives %v for points %v", id, sc.Cfg.All, gl, want, pts)
 				v.Shape = shape
 				return v
+			}
+			for i, e := range got {
+				w := wantEv[i]
+				if w.TimeS >= 0 && (int(e.TimeNs/1e9) != w.TimeS || int(e.Duration/1e9) != w.DurS) {
+					v := Fail("events/batch-time-duration", "alert id %s (batch form) event #%d %v carries time %ds and duration %ds; the point that triggers it (the first one of its window at that level) has time %ds, and %ds have passed since the triggering point of the episode's first event; points %v", id, i, e.Level, e.TimeNs/1e9, e.Duration/1e9, w.TimeS, w.DurS, pts)
+					v.Shape = shape
+					return v
+				}
 			}
 			if len(want) > 0 {
 				trivial = false
@@ -472,7 +643,7 @@ func init() {
 		ID:  "C01",
 		Run: runC01,
 		Rule: "case = an alert() with a seeded subset of info/warn/crit thresholds and the documented reset expressions, stateChangesOnly (none / plain / interval 2-5s), noRecoveries, history(2-5), flapping with unreachable thresholds, level/id/duration fields and level tag, in stream form or (1 in 4) batch form behind a tumbling window with/without all(); 1-3 alert IDs each with 1-8/14 points drawn from values around the thresholds (including the documented 61 73 64 85 62 56 47), one concurrent writer per ID, a slow handler and unrelated task churn in the faulty configuration; " +
-			"non-trivial = the model expects at least one event; distinct = distinct (scenario, interleaving signature) pairs",
+			"one case in seven instead is a flapping scenario (flapping(0.1, 0.6), default history, 25-70 points in phases of unrest and calm): a point certainly inside a flapping episode must produce no event, one certainly outside must produce its event, for every Nagios-style weighting; non-trivial = the model expects at least one event; distinct = distinct (scenario, interleaving signature) pairs",
 		Real:        []string{"AlertNode (determineLevel, alertState.Point/BufferedBatch, addEvent/triggered/updateExpired/updateFlapping, augment*)", "services/alert Service.Collect, alert.Topics, bufHandler", "WindowNode (batch form), FromNode, LogNode, TaskMaster, httpd write endpoint", "tick/stateful (threshold lambdas)"},
 		Stub:        []string{"recording alert.Handler registered on the alert's topic through the real service", "log sink below the alert node"},
 		Assumptions: []string{"the reference model is written from the documentation in pipeline/alert.go (its worked reset example is reproduced by the generator's value set)", "the batch form is modelled for plain thresholds only; flapping is only checked through the metamorphic law 'thresholds that can never trigger change nothing'", "missing or wrong-typed fields are not generated here (C05 covers them)"},
